@@ -12,7 +12,7 @@ RULE = ("all 400 (dimension 2..5, number 1..100) functions in both tiers: struct
         "Calculate(M_i) = f_i, global minimiser at the class distance with the class radius and value -1, every other minimum strictly higher) and compared with the recorded "
         "reference data (golden/gkls.json, 1e-9 relative), Knuth's published check value of the lagged-Fibonacci generator; sampling on 100 (quick) / all 400 (thorough) "
         "functions: points outside all balls against the paraboloid recomputed by the harness, interior points against the ball minimum, pairs straddling every ball boundary "
-        "at separation 2e-9*rho against a 1e-6 jump allowance, radial probes near every minimiser. Non-trivial: every function; distinct = (dimension, number).")
+        "at separation 2e-9*rho against a 1e-6 jump allowance, radial probes near every minimiser; 40 (quick) / 400 (thorough) pairs are constructed 6 times each in one process, interleaved, every construction and earlier instances compared with the reference. Non-trivial: every function; distinct = (dimension, number).")
 ASSUMPTIONS = ["class parameters (distance/radius) 0.9/0.2, 0.66/0.2, 0.66/0.2, 0.66/0.3 for dimensions 2..5 (the published 'simple' classes)",
                "golden/gkls.json was recorded once from the pinned tree; it anchors 'is always the same function', the structural clauses do not depend on it",
                "continuity is tested across ball boundaries (where the splice is) with an allowance 1e-6 at separation 2e-9*rho; a wrong spline coefficient produces jumps of 1e-2..1"]
@@ -35,7 +35,65 @@ def cases(tier, seed):
         for k0 in range(1, 101, 5):
             out.append({"kind": "fn", "n": n, "ks": list(range(k0, k0 + 5)), "seed": seed,
                         "sample": "all" if tier == "thorough" else "some"})
+    # "function (n, k) is always the same function": the same pair is constructed again and again in one process,
+    # interleaved with other constructions and with evaluations
+    npairs = 40 if tier == "quick" else 400
+    rng = scenario.rng_for(seed, "C14R", 0)
+    allp = [(n, k) for n in (2, 3, 4, 5) for k in range(1, 101)]
+    sel = [allp[int(j)] for j in rng.permutation(len(allp))[:npairs]]
+    for j in range(0, len(sel), 4):
+        out.append({"kind": "rebuild", "pairs": [list(q) for q in sel[j:j + 4]], "R": 6, "seed": seed, "j": j})
     return out
+
+
+def structure_differs(p, n, k):
+    g = golden()["functions"].get("%d_%d" % (n, k))
+    mn = p.function.GKLS_minima
+    M = np.array(mn.local_min, dtype=float)
+    rho = np.array(mn.rho, dtype=float)
+    f = np.array(mn.f, dtype=float)
+    if not (close(M, g["local_min"]) and close(rho, g["rho"]) and close(f, g["f"])):
+        return "structure"
+    vals = [bench.evaluate(p, y) for y in probe_points(n, k)]
+    if not close(vals, g["values"]):
+        return "values"
+    ko_y, ko_v = bench.declared(p)
+    if not close(ko_y, g["local_min"][1]) or ko_v != -1.0:
+        return "known-optimum"
+    return None
+
+
+def run_rebuild(c):
+    viol, obs, keys = [], {}, []
+    rng = scenario.rng_for(c["seed"], "C14R", c["j"] + 1)
+    live = []
+    schedule = [tuple(q) for q in c["pairs"]] * c["R"]
+    order = rng.permutation(len(schedule))
+    if c["j"] % 8 == 0:
+        order = np.arange(len(schedule)).reshape(c["R"], -1).T.reshape(-1)      # the same pair R times in a row
+    count = {}
+    for idx in order:
+        n, k = schedule[int(idx)]
+        count[(n, k)] = count.get((n, k), 0) + 1
+        p = bench.construct(("gkls", n, k))
+        live.append((n, k, p, count[(n, k)]))
+        obs["rebuild_constructions"] = obs.get("rebuild_constructions", 0) + 1
+        what = structure_differs(p, n, k)
+        if what and len(viol) < 6:
+            viol.append({"mech": "gkls:construction-number-%d-differs-from-recorded-%s" % (min(count[(n, k)], 3), what), "n": n, "k": k,
+                         "construction": count[(n, k)], "live_instances": len(live)})
+        if rng.random() < 0.5:
+            # an instance built earlier is audited again after later constructions
+            n2, k2, p2, c2 = live[int(rng.integers(len(live)))]
+            what = structure_differs(p2, n2, k2)
+            obs["earlier_instances_reaudited"] = obs.get("earlier_instances_reaudited", 0) + 1
+            if what and len(viol) < 6:
+                viol.append({"mech": "gkls:earlier-instance-changed-%s" % what, "n": n2, "k": k2, "construction": c2})
+    obs["max_constructions_of_one_pair"] = max(count.values())
+    for (n, k) in count:
+        keys.append("rebuild|%d|%d" % (n, k))
+    return {"violations": viol, "obs": obs, "nontrivial": True, "keys": keys,
+            "sample": {"kind": "repeated construction", "pairs": c["pairs"], "times_each": c["R"]} if c["j"] == 0 else None}
 
 
 def close(a, b, rel=1e-9):
@@ -66,6 +124,8 @@ def run_case(c):
         if got != golden()["knuth_check"]["ran_u0"]:
             viol.append({"mech": "gkls:rng-check-value", "got": got, "expected": golden()["knuth_check"]["ran_u0"]})
         return {"violations": viol, "obs": obs, "nontrivial": True, "key": "knuth", "sample": {"kind": "Knuth ranf_start(310952), 2009 refills", "ran_u[0]": got}}
+    if c["kind"] == "rebuild":
+        return run_rebuild(c)
     n = c["n"]
     keys = []
     # all instances of the case are constructed first and stay alive (together with one of another dimension), so that
@@ -196,7 +256,9 @@ def EXHAUSTIVE(tier):
 def finalize(obs, tier, stats):
     if obs.get("functions", 0) != 400:
         return "only %d of 400 functions audited" % obs.get("functions", 0), {}
-    for k in ("knuth_check", "paraboloid_points", "interior_points", "boundary_pairs", "reference_values_compared", "live_instances_during_audit"):
+    for k in ("knuth_check", "paraboloid_points", "interior_points", "boundary_pairs", "reference_values_compared", "live_instances_during_audit", "rebuild_constructions", "earlier_instances_reaudited"):
         if not obs.get(k):
             return "%s never observed" % k, {}
+    if obs.get("max_constructions_of_one_pair", 0) < 5:
+        return "no pair was constructed 5 times in one process", {}
     return None, {"structure_audited": "all 400 functions"}
